@@ -134,6 +134,10 @@ func VerifC16Page() {
 // VerifC16List: listing by name: complete, duplicate-free, sorted, consistent with Stat.
 func VerifC16List() {
 	fs, c, isDir := c16Dir()
+	if c > 0 {
+		// a child may carry set-uid / set-gid / sticky bits: they are not part of an entry's kind
+		_ = hackpadfs.Chmod(fs, "d/"+c16Names[0], hackpadfs.FileMode(verifUint32("special")))
+	}
 	entries, err := hackpadfs.ReadDir(fs, "d")
 	verifAssert(err == nil, "ReadDir(d) failed")
 	verifAssert(len(entries) == c, "list: number of entries differs from number of children")
